@@ -60,8 +60,19 @@ Fixpoint adj_sorted (os : list ordexp) (l : list row) : bool :=
   | _ => true
   end.
 
-Definition by_all : list ordexp :=
-  [mkOrd CId false NDefault; mkOrd CA false NDefault; mkOrd CB false NDefault].
+
+Fixpoint remove_one (x : row) (l : list row) : option (list row) :=
+  match l with
+  | [] => None
+  | y :: r => if row_eqb x y then Some r
+              else match remove_one x r with Some r' => Some (y :: r') | None => None end
+  end.
+(* multiset inclusion *)
+Fixpoint sub_mset (a b : list row) : bool :=
+  match a with
+  | [] => true
+  | x :: a' => match remove_one x b with Some b' => sub_mset a' b' | None => false end
+  end.
 
 Definition bad_row : row := mkRow 0 None None None.
 
@@ -86,9 +97,18 @@ Definition run_ok (pfx_of : index -> bytes) (idxs : list index) (ents : index ->
           bytes_eqb (if p_desc pl then p_lo pl else p_hi pl) (kspec_bytes (pfx_of ix) end_) &&
           Bool.eqb (p_desc pl) desc && Bool.eqb (p_sort pl) sorted &&
           (if p_sort pl
-           then (* Go's sort.Slice is not stable: same rows, sorted by the comparator *)
+           then (* Go's sort (sort.Slice / top-N heap) is not stable and, inside a transaction, the
+                   secondary-index view can hold two versions of one pk, so even an ORDER BY that
+                   names the pk can tie. Exactly the outputs some sorted arrangement of the model's
+                   rows allows are accepted: sorted; same length as the model's window; the same
+                   sort key as the model at every position; a sub-multiset of the model's rows
+                   before OFFSET/LIMIT (without a window this is multiset equality). *)
+             let full := exec_entries (pfx_of ix) (ents ix) q pl in
              adj_sorted (q_order q) rows &&
-             list_eqb row_eqb (sort_rows by_all rows) (sort_rows by_all model)
+             (N.of_nat (length rows) =? N.of_nat (length model)) &&
+             forallb (fun p => match ord_cmp (q_order q) (fst p) (snd p) with Eq => true | _ => false end)
+                     (combine rows model) &&
+             sub_mset rows full
            else list_eqb row_eqb rows model)
       end
   end.
